@@ -292,13 +292,18 @@ def val_conf(ctx: Ctx) -> RuleResult:
             r.violate(f"ExecNode._conf_to_values: configured '{key}' falls back to the old value when it is falsy", f.loc(n),
                       f"re-configuring {key} to 0 / False is silently ignored: the node (and, for priorities, all its ancestors) keeps "
                       f"stale scheduling attributes", s_)
-        elif isinstance(v, ast.Call) and isinstance(v.func, ast.Attribute) and v.func.attr == "get" and len(v.args) == 2 \
-                and norm_src(v.args[1]) != f"self.{key}":
-            r.violate(f"ExecNode._conf_to_values: an absent '{key}' falls back to {norm_src(v.args[1])}, not to the node's own value",
-                      f.loc(n), f"re-configuring any other attribute of a node silently resets its {key} (a main-thread node becomes a "
-                      f"pool node, a sequential node a parallel one, ...)", s_)
         else:
-            raise Undecided(f"_conf_to_values: form of '{key}' not recognised: {s_}")
+            gets = [c for c in ast.walk(v) if isinstance(c, ast.Call) and isinstance(c.func, ast.Attribute) and c.func.attr == "get"
+                    and dotted(c.func.value) == p and len(c.args) == 2]
+            bad = [c for c in gets if norm_src(c.args[1]) != f"self.{key}"]
+            if bad:
+                r.violate(f"ExecNode._conf_to_values: an absent '{key}' falls back to {norm_src(bad[0].args[1])}, not to the node's own value",
+                          f.loc(n), f"re-configuring any other attribute of a node silently resets its {key} (a main-thread node becomes a "
+                          f"pool node, a sequential node a parallel one, ...)", s_)
+            elif gets:
+                r.ob(True, {key: s_ + "  (wrapped)"})
+            else:
+                raise Undecided(f"_conf_to_values: form of '{key}' not recognised: {s_}")
     for key in ("priority", "is_sequential"):
         r.require(key in seen, f"_conf_to_values: '{key}' is not configurable any more")
     return r
